@@ -273,6 +273,11 @@ func genReadOnly(c *Case, r *simrt.Rand, tier string) {
 	// phase 2 program: reads, a few batches, notifications, closes
 	n := 2 + r.Intn(8)
 	g := &batchGen{r: r, pool: keyPool(r, false)}
+	if r.Chance(0.4) {
+		// batches that create / delete child collections in the read-only collection
+		g.kids = true
+		g.names = [][]string{{"x", "y"}, {"x"}, {"c1", "c2", ".r"}}[r.Intn(3)]
+	}
 	var prog []Op
 	for i := 0; i < n; i++ {
 		switch x := r.Intn(10); {
@@ -294,7 +299,7 @@ func genReadOnly(c *Case, r *simrt.Rand, tier string) {
 	ro.Backing = "store"
 	ro.ReadOnly = true
 	ro.MergeOp = c.Opts.MergeOp
-	c.Prog = append(c.Prog, Op{Kind: "roOps", O: &ro, N: r.Intn(6), M: r.Intn(4), Prog: nil})
+	c.Prog = append(c.Prog, Op{Kind: "roOps", O: &ro, N: r.Intn(6), M: r.Intn(6), Prog: nil})
 	c.ROProg = prog
 }
 
@@ -398,6 +403,18 @@ func (e *Exec) readOnlyOps(op Op) {
 		img.files["notes.txt"] = []byte("junk")
 		img.files["data-zz.moss"] = []byte("junk")
 		variant += "+foreign-names"
+	case 4:
+		// no usable data file at all: what is left are a truncated file and junk
+		for n, b := range img.files {
+			if len(b) > 100 {
+				img.files[n] = b[:100]
+			}
+		}
+		img.files["notes.txt"] = []byte("junk")
+		variant += "+all-truncated"
+	case 5:
+		img = newDisk()
+		variant = "empty-directory"
 	}
 	roDir := e.fs.Dir + "-ro"
 	rwDir := e.fs.Dir + "-rw"
